@@ -480,7 +480,7 @@ pub fn run(ctx: &Ctx) -> i32 {
             return rep.finish();
         },
     };
-    let n = ctx.scale(4000, 12000);
+    let n = ctx.scale(12000, 40000);
     lane(ctx, &mut rep, &so, n, 0xC11, false, "C11");
     rep.finish()
 }
